@@ -344,8 +344,12 @@ class ProgGen:
 
     # -- helpers -------------------------------------------------------------
     def _style(self, op: dict) -> dict:
-        if self.styles and self.rng.random() < 0.4:
-            op["style"] = "kw"
+        if self.styles:
+            x = self.rng.random()
+            if x < 0.3:
+                op["style"] = "kw"
+            elif x < 0.6:
+                op["style"] = "pos"
         return op
 
     def _avail_ids(self) -> list[str]:
